@@ -834,6 +834,284 @@ Proof.
 Qed.
 
 (* ===================================================================================== *)
+(* MultiReaderCloser under any use: whatever sequence of Read / WriteTo calls (with whatever
+   buffer sizes, 0 included, with destinations that fail, going on after errors or not), Close
+   leaves every closable source closed exactly once.                                       *)
+
+Lemma read_pres want r bs e r' :
+  read want r = (bs, e, r') -> clean (script r) = true ->
+  closes r' = closes r /\ clean (script r') = true /\
+  match e with EFail k => is_body_closed k = false | _ => True end.
+Proof.
+  intros Hr Hcl. unfold read in Hr.
+  destruct want as [|w]; [injection Hr as <- <- <-; repeat split; assumption|].
+  remember (S w) as want eqn:Hwant. clear Hwant w.
+  destruct (script r) as [|x t] eqn:Hs.
+  - injection Hr as <- <- <-. rewrite Hs. repeat split; reflexivity.
+  - unfold clean in Hcl. cbn [forallb] in Hcl. apply andb_true_iff in Hcl as [Hx Ht].
+    fold (clean t) in Ht.
+    destruct x as [d| |d|k|d k|d k]; cbn [clean_item] in Hx;
+      try (destruct (Nat.leb (length d) want));
+      injection Hr as <- <- <-; cbn [with_script script closes];
+      try rewrite Hs; unfold clean; cbn [forallb clean_item]; fold (clean t);
+      try rewrite Hx; try rewrite Ht;
+      repeat split; try reflexivity; try (apply negb_true_iff; exact Hx).
+Qed.
+
+Lemma copy_to_pres fuel : forall c b r acc out eo r' b',
+  copy_to fuel c b r acc = (out, eo, r', b') -> clean (script r) = true ->
+  closes r' = closes r /\ clean (script r') = true /\
+  match eo with Some (EFail k) => is_body_closed k = false | _ => True end.
+Proof.
+  induction fuel as [|fuel IH]; intros c b r acc out eo r' b' Hc Hcl.
+  - cbn [copy_to] in Hc. injection Hc as <- <- <- <-. repeat split; assumption.
+  - cbn [copy_to] in Hc.
+    destruct (next_size c) as [want c'].
+    destruct (read want r) as [[bs e] r1] eqn:Hrd.
+    destruct (read_pres _ _ _ _ _ Hrd Hcl) as (Hc1 & Hcl1 & Hk).
+    assert (Hgo : forall b1,
+              match e with
+              | ENil => copy_to fuel c' b1 r1 (acc ++ bs)
+              | _ => (acc ++ bs, Some e, r1, b1)
+              end = (out, eo, r', b') ->
+              closes r' = closes r /\ clean (script r') = true /\
+              match eo with Some (EFail k) => is_body_closed k = false | _ => True end).
+    { intros b1 H. destruct e; try (injection H as <- <- <- <-; repeat split; assumption).
+      destruct (IH _ _ _ _ _ _ _ _ H Hcl1) as (H1 & H2 & H3).
+      repeat split; try assumption. congruence. }
+    destruct bs as [|x bs]; [exact (Hgo _ Hc)|].
+    destruct b as [[|k]|]; [|exact (Hgo _ Hc)|exact (Hgo _ Hc)].
+    injection Hc as <- <- <- <-. repeat split; assumption.
+Qed.
+
+(* the part of the state the close counts depend on *)
+Definition cleans (rs : list src) : Prop := Forall (fun s => clean (script (sreader s)) = true) rs.
+
+Section AnyUse.
+  Variable X : list nat.
+
+  Definition use_inv (rs gone : list src) : Prop := multi_cl X rs gone /\ cleans rs.
+
+  Lemma use_inv_head r rest gone rd' :
+    use_inv (r :: rest) gone -> closes rd' = closes (sreader r) -> clean (script rd') = true ->
+    use_inv ({| sreader := rd'; closable := closable r |} :: rest) gone.
+  Proof.
+    intros [[HX Hun] Hcl] Hc Hcl'. split; [split|].
+    - exact HX.
+    - constructor; [cbn [sreader]; rewrite Hc; exact (Forall_inv Hun) | exact (Forall_inv_tail Hun)].
+    - constructor; [exact Hcl' | exact (Forall_inv_tail Hcl)].
+  Qed.
+
+  (* dropping the head source, closed if it can be *)
+  Lemma use_inv_drop_closed r rest gone rd' :
+    use_inv (r :: rest) gone -> closes rd' = closes (sreader r) ->
+    use_inv rest (gone ++ [close_src {| sreader := rd'; closable := closable r |}]).
+  Proof.
+    intros [[HX Hun] Hcl] Hc. split; [split|].
+    - unfold gone_counts. rewrite map_app. cbn [map]. fold (gone_counts gone).
+      rewrite closes_close_src by (cbn [sreader]; rewrite Hc; exact (Forall_inv Hun)).
+      cbn [closable]. rewrite <- app_assoc. exact HX.
+    - exact (Forall_inv_tail Hun).
+    - exact (Forall_inv_tail Hcl).
+  Qed.
+
+  Lemma multi_read_loop_pres want : forall rs gone bs e m',
+    use_inv rs gone -> multi_read_loop want rs gone = (bs, e, m') ->
+    use_inv (mreaders m') (mgone m').
+  Proof.
+    induction rs as [|r rest IH]; intros gone bs e m' Hinv Hr.
+    - cbn [multi_read_loop] in Hr. injection Hr as <- <- <-. exact Hinv.
+    - cbn [multi_read_loop] in Hr.
+      destruct (read want (sreader r)) as [[bs0 e0] rd'] eqn:Hrd.
+      destruct (read_pres _ _ _ _ _ Hrd (Forall_inv (proj2 Hinv))) as (Hc & Hcl' & Hk).
+      pose proof (use_inv_head _ _ _ _ Hinv Hc Hcl') as Hkeep.
+      pose proof (use_inv_drop_closed _ _ _ _ Hinv Hc) as Hdrop.
+      destruct e0; try (injection Hr as <- <- <-; exact Hkeep).
+      + (* EEOF *)
+        destruct bs0 as [|x bs0]; [exact (IH _ _ _ _ Hdrop Hr)|].
+        injection Hr as <- <- <-. exact Hdrop.
+      + (* EFail k: never http.ErrBodyReadAfterClose here *)
+        rewrite Hk in Hr. injection Hr as <- <- <-. exact Hkeep.
+  Qed.
+
+  Lemma multi_wt_loop_pres c : forall rs b gone acc bs e m',
+    use_inv rs gone -> multi_wt_loop c b rs gone acc = (bs, e, m') ->
+    use_inv (mreaders m') (mgone m').
+  Proof.
+    induction rs as [|r rest IH]; intros b gone acc bs e m' Hinv Hr.
+    - cbn [multi_wt_loop] in Hr. injection Hr as <- <- <-. exact Hinv.
+    - cbn [multi_wt_loop] in Hr.
+      destruct (copy_to (S (script_fuel (script (sreader r)))) c b (sreader r) [])
+        as [[[bs0 eo] rd'] b'] eqn:Hcp.
+      destruct (copy_to_pres _ _ _ _ _ _ _ _ _ Hcp (Forall_inv (proj2 Hinv))) as (Hc & Hcl' & _).
+      pose proof (use_inv_head _ _ _ _ Hinv Hc Hcl') as Hkeep.
+      pose proof (use_inv_drop_closed _ _ _ _ Hinv Hc) as Hdrop.
+      destruct eo as [e0|]; [|injection Hr as <- <- <-; exact Hkeep].
+      destruct e0; try (injection Hr as <- <- <-; exact Hkeep).
+      exact (IH _ _ _ _ _ _ Hdrop Hr).
+  Qed.
+
+  Lemma multi_ops_pres : forall ops m outs m',
+    use_inv (mreaders m) (mgone m) -> multi_ops ops m = (outs, m') ->
+    use_inv (mreaders m') (mgone m').
+  Proof.
+    induction ops as [|op t IH]; intros m outs m' Hinv Hr.
+    - cbn [multi_ops] in Hr. injection Hr as <- <-. exact Hinv.
+    - cbn [multi_ops] in Hr.
+      destruct (multi_op op m) as [[bs e] m1] eqn:Hop.
+      destruct (multi_ops t m1) as [outs1 m2] eqn:Ht.
+      injection Hr as <- <-.
+      apply (IH m1 outs1 m2); [|exact Ht].
+      destruct op as [want|c b]; cbn [multi_op] in Hop.
+      + exact (multi_read_loop_pres _ _ _ _ _ _ Hinv Hop).
+      + exact (multi_wt_loop_pres _ _ _ _ _ _ _ _ Hinv Hop).
+  Qed.
+End AnyUse.
+
+Lemma cleans_new srcs : multi_clean srcs = true -> cleans (map src_new srcs).
+Proof.
+  unfold multi_clean, cleans. intro H. rewrite forallb_forall in H.
+  apply Forall_forall. intros s Hin. apply in_map_iff in Hin. destruct Hin as (sc & <- & Hsc).
+  exact (H sc Hsc).
+Qed.
+
+Lemma multi_use_closed_once : forall srcs ops k, multi_clean srcs = true -> 1 <= k ->
+  exists outs cb, multi_use srcs ops k = (outs, cb, expected_closes srcs).
+Proof.
+  intros srcs ops k Hcl Hk. unfold multi_use.
+  destruct (multi_ops ops (multi_new srcs)) as [outs m1] eqn:Hops.
+  assert (Hinv : use_inv (expected_closes srcs) (mreaders (multi_new srcs)) (mgone (multi_new srcs))).
+  { unfold use_inv, multi_cl, multi_new. cbn [mreaders mgone gone_counts map app].
+    rewrite closes_due_new. repeat split; [apply unclosed_new | apply cleans_new; exact Hcl]. }
+  destruct (multi_ops_pres _ _ _ _ _ Hinv Hops) as [[HX Hun] _].
+  exists outs. eexists. rewrite (iter_idem multi_close multi_close_idem k _ Hk).
+  rewrite (close_counts_multi_close _ Hun), HX. reflexivity.
+Qed.
+
+Lemma multi_use_oracle_sound srcs ca :
+  multi_use_oracle srcs ca = true <-> (multi_clean srcs = true -> multi_use_spec srcs ca).
+Proof.
+  unfold multi_use_oracle, multi_use_spec.
+  rewrite orb_true_iff, negb_true_iff, eqb_listnat_spec.
+  destruct (multi_clean srcs); split; intro H.
+  - intros _. destruct H as [H|H]; [discriminate H | exact H].
+  - right. exact (H eq_refl).
+  - intro Hd. discriminate Hd.
+  - left. reflexivity.
+Qed.
+
+Lemma multi_use_spec_thm : forall srcs ops k, multi_clean srcs = true -> 1 <= k ->
+  exists outs cb ca, multi_use srcs ops k = (outs, cb, ca) /\ multi_use_spec srcs ca.
+Proof.
+  intros srcs ops k Hcl Hk.
+  destruct (multi_use_closed_once srcs ops k Hcl Hk) as (outs & cb & H).
+  exists outs, cb, (expected_closes srcs). split; [exact H | reflexivity].
+Qed.
+
+(* ------------------------------------------------------------------------------------- *)
+(* The bytes, for any MIX of the two paths (a few Read calls for a header, then io.Copy for the
+   rest, ...): up to and including the first call that reports anything but nil, the calls
+   deliver exactly the expected stream and that call reports its expected end (a WriteTo that
+   returns nil is reported as [EEOF], the clean end).                                        *)
+
+Lemma copy_to_none fuel : forall c r acc,
+  copy_to fuel c None r acc =
+  (let '(o, e, r') := consume read fuel c r acc in (o, e, r', None)).
+Proof.
+  induction fuel as [|fuel IH]; intros c r acc; [reflexivity|].
+  cbn [copy_to consume].
+  destruct (next_size c) as [want c'].
+  destruct (read want r) as [[bs e] r1].
+  destruct bs as [|x bs]; destruct e; try reflexivity; apply IH.
+Qed.
+
+Lemma multi_wt_loop_none c : forall rs gone acc,
+  multi_wt_loop c None rs gone acc = multi_write_to_loop Fixed c rs gone acc.
+Proof.
+  induction rs as [|r rest IH]; intros gone acc; [reflexivity|].
+  cbn [multi_wt_loop multi_write_to_loop]. unfold copy_all. rewrite copy_to_none.
+  destruct (consume read (S (script_fuel (script (sreader r)))) c (sreader r) [])
+    as [[bs e] rd'].
+  destruct e as [e|]; [|reflexivity]. destruct e; try reflexivity. apply IH.
+Qed.
+
+Lemma end_of_not_nil s : end_of s <> ENil.
+Proof.
+  induction s as [|[d| |d|k|d k|d k] t IH]; cbn [end_of]; try exact IH; discriminate.
+Qed.
+
+Lemma expect_rs_not_nil rs : snd (expect_rs rs) <> ENil.
+Proof.
+  induction rs as [|r t IH]; cbn [expect_rs]; [discriminate|].
+  pose proof (end_of_not_nil (script (sreader r))) as Hn.
+  destruct (end_of (script (sreader r))); cbn [snd]; try discriminate; try exact IH.
+  contradiction.
+Qed.
+
+(* well-formed calls for this clause: non-empty Read buffers, positive copy sizes, destinations
+   that do not fail *)
+Definition op_ok (op : mop) : Prop :=
+  match op with
+  | ORead want => 0 < want
+  | OWriteTo c b => consumer_pos c /\ b = None
+  end.
+
+Lemma multi_ops_stream E Er X : forall ops m acc outs m',
+  Forall op_ok ops -> multi_inv E Er X m acc -> multi_ops ops m = (outs, m') ->
+  match upto_err outs with
+  | (o, Some e) => acc ++ o = E /\ e = Er
+  | (o, None) => exists rest, E = (acc ++ o) ++ rest
+  end.
+Proof.
+  induction ops as [|op t IH]; intros m acc outs m' Hok Hinv Hr.
+  - cbn [multi_ops] in Hr. injection Hr as <- <-. cbn [upto_err]. rewrite app_nil_r.
+    destruct Hinv as (HE & _). exists (fst (expect_rs (mreaders m))). symmetry. exact HE.
+  - cbn [multi_ops] in Hr.
+    destruct (multi_op op m) as [[bs e] m1] eqn:Hop.
+    destruct (multi_ops t m1) as [outs1 m2] eqn:Ht.
+    injection Hr as <- <-.
+    pose proof (Forall_inv Hok) as Hop_ok. pose proof (Forall_inv_tail Hok) as Hok'.
+    assert (Hstep : match e with
+                    | ENil => multi_inv E Er X m1 (acc ++ bs)
+                    | _ => acc ++ bs = E /\ e = Er
+                    end).
+    { destruct op as [want|c b]; cbn [multi_op op_ok] in Hop, Hop_ok.
+      - pose proof (multi_read_step E Er X want m acc bs e m1 Hop_ok Hinv Hop) as H.
+        destruct e; try (destruct H as (H1 & H2 & _); split; assumption).
+        exact (proj1 H).
+      - destruct Hop_ok as [Hc ->]. rewrite multi_wt_loop_none in Hop.
+        destruct Hinv as (HE & HEr & (HX & Hun) & Hdom).
+        destruct (multi_write_to_loop_spec c (mreaders m) Hc (mgone m) [] Hun)
+          as (mx & Hrun & _).
+        rewrite Hrun in Hop. injection Hop as <- <- <-. cbn [app].
+        pose proof (expect_rs_not_nil (mreaders m)) as Hnn.
+        destruct (snd (expect_rs (mreaders m))) eqn:Hs; try (split; [exact HE | exact HEr]).
+        contradiction. }
+    cbn [upto_err].
+    destruct e; try exact Hstep.
+    specialize (IH m1 (acc ++ bs) outs1 m2 Hok' Hstep Ht).
+    destruct (upto_err outs1) as [o eo]. rewrite app_assoc. exact IH.
+Qed.
+
+Lemma multi_stream_oracle_sound srcs outs :
+  multi_stream_oracle srcs outs = true <-> multi_stream_spec srcs outs.
+Proof.
+  unfold multi_stream_oracle, multi_stream_spec.
+  destruct (upto_err outs) as [o [e|]].
+  - rewrite andb_true_iff, eqb_listN_spec, err_eqb_spec. reflexivity.
+  - apply prefixb_spec.
+Qed.
+
+Lemma multi_any_path_spec : forall srcs ops k, multi_dom srcs = true -> Forall op_ok ops ->
+  exists outs cb ca, multi_use srcs ops k = (outs, cb, ca) /\ multi_stream_spec srcs outs.
+Proof.
+  intros srcs ops k Hdom Hok. unfold multi_use.
+  destruct (multi_ops ops (multi_new srcs)) as [outs m1] eqn:Hops.
+  exists outs. eexists. eexists. split; [reflexivity|].
+  exact (multi_ops_stream _ _ _ ops (multi_new srcs) [] outs m1 Hok (multi_inv_new srcs Hdom) Hops).
+Qed.
+
+(* ===================================================================================== *)
 (* Non-vacuity: concrete runs                                                              *)
 
 Definition ex_consumer : consumer := {| csizes := [1; 3]; cdflt := 4 |}.
@@ -966,3 +1244,35 @@ Example tee_run_stopped :
   tee_run [Data [1; 2]%N; Zero; DataEOF [3]%N] None ex_consumer (Some 1) 1
   = ([1]%N, None, [1]%N, 1, 1).
 Proof. vm_compute. reflexivity. Qed.
+
+(* any use: a Read, a WriteTo whose destination refuses its third write (the chunk [4] is lost),
+   another Read, a WriteTo that completes, a Read after the end; two Close calls *)
+Example multi_use_run :
+  multi_use [([Data [1; 2]%N; DataEOF [3]%N], true); ([Data [4]%N; Data [5]%N], true);
+             ([Data [6]%N], false)]
+            [ORead 1; OWriteTo copy_consumer (Some 2); ORead 4; OWriteTo copy_consumer None; ORead 1] 2
+  = ([([1]%N, ENil); ([2; 3]%N, EWriter); ([5]%N, ENil); ([6]%N, EEOF); ([], EEOF)],
+     [1; 1; 0], [1; 1; 0]).
+Proof. vm_compute. reflexivity. Qed.
+
+(* the caller goes on after a transient error of the second source (and starts with an empty
+   buffer): still every source closed exactly once *)
+Example multi_use_after_error :
+  multi_use [([Data [1; 2]%N], true); ([DataErr [3]%N FNetClosed; Data [4]%N], true);
+             ([Data [5]%N], true)]
+            [ORead 0; ORead 8; ORead 8; ORead 8; OWriteTo copy_consumer None] 1
+  = ([([], ENil); ([1; 2]%N, ENil); ([3]%N, EFail FNetClosed); ([4]%N, ENil); ([5]%N, EEOF)],
+     [1; 1; 1], [1; 1; 1]).
+Proof. vm_compute. reflexivity. Qed.
+
+(* a header through Read, the rest through WriteTo: the stream, then the clean end *)
+Example multi_mixed_paths :
+  multi_use [([Data [1; 2]%N; DataEOF [3]%N], true); ([Data [4]%N], true)]
+            [ORead 2; OWriteTo ex_consumer None] 1
+  = ([([1; 2]%N, ENil); ([3; 4]%N, EEOF)], [1; 1], [1; 1])
+  /\ upto_err [([1; 2]%N, ENil); ([3; 4]%N, EEOF)] = ([1; 2; 3; 4]%N, Some EEOF)
+  /\ Forall op_ok [ORead 2; OWriteTo ex_consumer None].
+Proof.
+  split; [vm_compute; reflexivity|]. split; [reflexivity|].
+  repeat constructor; cbn [csizes cdflt ex_consumer]; lia.
+Qed.
